@@ -267,7 +267,9 @@ def replay(path):
     with open(path) as f:
         rec = json.load(f)
     case = rec["record"]["case"]
-    table, _ = gen_table(ck, _scenario_of(case), "replay")
+    sc = dict(_scenario_of(case))
+    sc.update(modes=(case["mode"],), medias=(case.get("media", "av"),), envs=(case.get("env", "ok"),), pres=(case["pre"],))
+    table, _ = gen_table(ck, sc, "replay")
     pp = os.path.join(ck.dir, "replay_one_program.ndjson")
     vlib.write_ndjson(pp, [{"pre": case["pre"], "modes": [case["mode"]], "medias": [case.get("media", "av")],
                             "envs": [case.get("env", "ok")], "calls": case["calls"]}])
